@@ -92,8 +92,8 @@ class ConfigScalarMeta(ConfigNodeMeta):
                 #bt = cls._allowed_scalar_types[value_type]
                 bt = cls._allowed_scalar_types.get(value_type, value_type)
                 new_value_type = ConfigScalarMeta(typename, cls._bases + (bt, ), { **cls._dict, '_dyn_base': bt } )
-                cls._types[value_type] = new_value_type
-                value_type = new_value_type
+                # (another thread might have registered its class for this type in the meantime: there is one per type)
+                value_type = cls._types.setdefault(value_type, new_value_type)
             else:
                 value_type = cls._types[value_type]
 
